@@ -1045,6 +1045,13 @@ class IfBlock(Block, start=IfBeginStmt, end=EndIfStmt):
         elseif_stmts = []
         else_stmt = None
         for stmt in body:
+            if isinstance(stmt, (ElseIfStmt, ElseStmt)) and \
+               else_stmt is not None:
+                # the block already has its ELSE part
+                raise CompileError(
+                    EC.ELSE_WITHOUT_IF,
+                    f'{stmt.node_name()} after ELSE',
+                    node=stmt)
             if isinstance(stmt, ElseIfStmt):
                 elseif_stmts.append(stmt)
                 if_blocks.append((cur_if_cond, cur_if_body))
